@@ -93,8 +93,11 @@ def _set_attr(ex, ref, attr, value):
 
 
 def new_message(ex, uid, internal_date, flags, recent, content, expunged, email_id=None, thread_id=None):
-    """ASSUMED model of Message.__init__/BaseMessage.__init__: a fresh object whose attributes are the
-    constructor arguments (permanent_flags = frozenset(flags))"""
+    """model of Message.__init__/BaseMessage.__init__: a fresh object whose attributes are the constructor arguments
+    (permanent_flags = frozenset(flags)).  That the attributes are the arguments is proved on the two real constructors
+    (`base_message_init`, `message_init` below); that a constructor call yields an object distinct from every existing one
+    is Python's semantics (ASSUMED: freshness of constructed objects), as is that the one-line property getters
+    uid/recent/permanent_flags/expunged return the fields of the same name."""
     a = alloc(ex)
     m = Msg.fresh('newmsg')
     ex.assume(~a.has(m))
@@ -192,3 +195,82 @@ message_copy = Contract(
     ],
     raises_only=(), returns=Msg,
     note='justifies the model msg_copy() that stands for Message.copy inside the MailboxData contracts')
+
+
+# ---- the two real constructors against the model `new_message` (was an ASSUMED model until the last round)
+import ast as _ast  # noqa: E402
+from pyvc.engine import Scope as _Scope  # noqa: E402
+
+MF = 'pymap/message.py'
+_Date = RefS('Datetime')
+_MsgContent = RefS('MessageContent')
+_FKey = TupleS(INT, SetS(Flag))
+_BASE_FIELDS = dict(uid=INT, internal_date=_Date, expunged=BOOL, _email_id=Oid, _thread_id=Oid,
+                    _permanent_flags=SetS(Flag), _flags_key=_FKey)
+BaseMsgRec = RecS('BaseMessage', pyclass=(MF, 'BaseMessage'), **_BASE_FIELDS)
+DictMsgRec = RecS('Message', pyclass=(F, 'Message'), _recent=BOOL, _content=OptS(_MsgContent), **_BASE_FIELDS)
+
+
+def _ctor_none(ex, frame, e, base=None):
+    ex.eval_args(e, frame)
+    return VNone()
+
+
+def _ctor_oid(ex, frame, e, base=None):
+    ex.eval_args(e, frame)
+    return Oid.fresh('oid')
+
+
+def _frozenset_or_empty(ex, frame, e, base=None):
+    """frozenset(x or ()) for a set x is x: an empty x is falsy and replaced by (), whose frozenset is empty as well.
+    Any other argument shape is outside this model (the contract then reports undecided, never a pass)."""
+    a = e.args[0]
+    if not (isinstance(a, _ast.BoolOp) and isinstance(a.op, _ast.Or) and len(a.values) == 2 and
+            isinstance(a.values[1], _ast.Tuple) and not a.values[1].elts):
+        from pyvc.engine import Unsupported
+        raise Unsupported('frozenset(...) of an argument that is not `x or ()`')
+    return ex.eval(a.values[0], frame)
+
+
+_CTOR_POST = [
+    ('keeps_uid_date_expunged', lambda s: (s.self.uid == s.uid) & (s.self.internal_date == s.internal_date) &
+     (s.self.expunged == s.expunged)),
+    ('permanent_flags_are_exactly_the_given_flags', lambda s: s.self._permanent_flags == s.permanent_flags),
+    ('flags_key_is_uid_and_flags', lambda s: (s.self._flags_key[0] == s.uid) & (s.self._flags_key[1] == s.permanent_flags)),
+]
+
+base_message_init = Contract(
+    'C17', MF, 'BaseMessage.__init__',
+    params=dict(self=BaseMsgRec, uid=INT, internal_date=_Date, permanent_flags=SetS(Flag), email_id=OptS(Oid),
+                thread_id=OptS(Oid), expunged=BOOL),
+    ensures=_CTOR_POST + [('keeps_a_given_email_id', lambda s: when_some(s.email_id, lambda r: s.self._email_id == r)),
+                          ('keeps_a_given_thread_id', lambda s: when_some(s.thread_id, lambda r: s.self._thread_id == r))],
+    calls={'super().__init__': _ctor_none, 'ObjectId': _ctor_oid, 'frozenset': _frozenset_or_empty},
+    modifies=['self'], raises_only=(), returns=NoneS(),
+    note='justifies the model new_message(); ObjectId has no __bool__/__len__, so `email_id or ObjectId(None)` keeps a given id')
+
+
+def _super_init(ex, frame, e, base=None):
+    """callee contract of BaseMessage.__init__ (base_message_init, proved), applied to self: its ensures, nothing more"""
+    args, kw = ex.eval_args(e, frame)
+    me = ex.frames[0].env['self']
+    f = ex.st.store[me.rid]
+    f['uid'], f['internal_date'], f['_permanent_flags'] = args[0], args[1], args[2]
+    f['expunged'] = kw['expunged']
+    key = _FKey.fresh('flags_key')
+    sc = _Scope(ex.st, {'k': key})
+    ex.assume(_b(sc.k[0] == args[0]))
+    ex.assume(_b(sc.k[1] == args[2]))
+    f['_flags_key'] = key
+    f['_email_id'], f['_thread_id'] = Oid.fresh('email_id'), Oid.fresh('thread_id')
+    return VNone()
+
+
+message_init = Contract(
+    'C17', F, 'Message.__init__',
+    params=dict(self=DictMsgRec, uid=INT, internal_date=_Date, permanent_flags=SetS(Flag), expunged=BOOL,
+                email_id=OptS(Oid), thread_id=OptS(Oid), recent=BOOL, content=OptS(_MsgContent)),
+    ensures=_CTOR_POST + [('keeps_recent_and_content', lambda s: (s.self._recent == s.recent) & (s.self._content == s.content))],
+    calls={'super().__init__': _super_init}, modifies=['self'], raises_only=(), returns=NoneS(),
+    note='justifies the model new_message(): \\Recent of a new dict message is exactly the `recent` argument')
+CTOR_CONTRACTS = [base_message_init, message_init]
